@@ -74,12 +74,17 @@ Definition sub (us : list bytes) (lo hi : nat) : bytes := concat (firstn (hi - l
 (* time.Parse("060102", s) succeeds: six digits, month 1..12, day within the month
    (two-digit years: 69..99 -> 19yy, 00..68 -> 20yy) *)
 Definition two (a b : N) : N := (a - 48) * 10 + (b - 48).
+(* time.Parse("060102", s) succeeds.  The two year characters go through time.atoi, which takes a
+   leading sign: "-2" is the year 1998, "+2" the year 2002 (seen by the default-reader correspondence
+   of C01: a date column reading "-21123" is kept by validateSimpleDate); month and day want digits *)
 Definition valid_date (s : bytes) : bool :=
   match s with
   | [y1; y2; m1; m2; d1; d2] =>
-      forallb is_digit s &&
-      (let yy := two y1 y2 in let mm := two m1 m2 in let dd := two d1 d2 in
-       let year := if yy <? 69 then 2000 + yy else 1900 + yy in
+      ((is_digit y1 || (y1 =? 43) || (y1 =? 45)) && forallb is_digit [y2; m1; m2; d1; d2]) &&
+      (let mm := two m1 m2 in let dd := two d1 d2 in
+       let year := if y1 =? 45 then 2000 - (y2 - 48)
+                   else if y1 =? 43 then 2000 + (y2 - 48)
+                   else (let yy := two y1 y2 in if yy <? 69 then 2000 + yy else 1900 + yy) in
        let leap := ((year mod 4 =? 0) && negb (year mod 100 =? 0)) || (year mod 400 =? 0) in
        let dim := if mm =? 2 then (if leap then 29 else 28)
                   else if (mm =? 4) || (mm =? 6) || (mm =? 9) || (mm =? 11) then 30 else 31 in
